@@ -67,8 +67,9 @@ func run(r *report.Run, shard, nshards int, replayFile string) {
 	r.Rule = "part 1: per action type (SubmitLogicCall, UpdateValset, CompassHandover, UploadUserSmartContract, UploadSmartContract, skyway batch) the full Cartesian product of per-field alphabets over the values handed to the bridge contract on delivery (plus turnstone id where the scheme hashes it) is evaluated on the real QueuedSignedMessage.GetBytesToSign (after the Marshal/UnmarshalInterface round trip the queue store performs) resp. NewInternalOutgingTxBatch/GetCheckpoint; tuple -> signing bytes must be injective on the whole product (hash-set collision check, evaluations = tuples, distinct = distinct signing bytes). part 2: BFS over Put / Replace / Remove / Replace-of-removed-id / Replace-of-foreign-id through ConsensusKeeper.PutMessageInQueue and DeleteJob on the four EVM queue types of two chains; every freshly allocated id > every id ever allocated, ids of all queues pairwise distinct and equal to the reference sets (states/transitions in coverage.id_states / id_transitions)"
 	r.Assumptions = []string{
 		"'delivered' values are the arguments VerifyAgainstTX packs for the compass call of each action (eth_txable.go) and the submit_batch arguments for a batch; turnstone id is added where the present scheme hashes it (SubmitLogicCall, UpdateValset, UploadUserSmartContract, batch; not CompassHandover)",
-		"domains are at the level of the delivered value: 20-byte addresses (not hex spellings), bytes32 turnstone ids and fee payers (<= 32 bytes, distinct after padding), gas estimate and fees over elected/computed values (>= 1, Fees non-nil) - 0 / nil mean 'not yet elected' and collide with the pigeon defaults 300000 / 100000 by design; both defaults are in the alphabets",
+		"domains are at the level of the delivered value: 20-byte addresses (not hex spellings), bytes32 turnstone ids; fee payers are raw account bytes of 20 and 32 bytes (32-byte values that differ only in their first / only in their last 12 bytes, and one that ends in a 20-byte payer), pairwise distinct after the left-padding to bytes32 that VerifyAgainstTX applies (asserted at start-up), gas estimate and fees over elected/computed values (>= 1, Fees non-nil) - 0 / nil mean 'not yet elected' and collide with the pigeon defaults 300000 / 100000 by design; both defaults are in the alphabets",
 		"UploadSmartContract is a plain contract-creation transaction: no compass call, no signature is handed to any contract. Only bytecode and message id are required to influence the bytes; Abi, ConstructorInput (appended to the creation code, compared byte-for-byte by VerifyAgainstTX) and Retries are NOT covered by the signing bytes and are excluded",
+		"address-typed values carried as hex strings (contract, deployer, validators, forward-call targets, relayer) reach the hashers and VerifyAgainstTX only through common.HexToAddress, so their delivered domain is 20 bytes; SubmitLogicCall.ContractAddress ([]byte) is read by neither side",
 		"not delivered, therefore excluded: SubmitLogicCall.Abi/ContractAddress/ExecutionRequirements/Retries, UploadUserSmartContract.BlockHeight/Id/Retries, CompassHandover.Id, Message.ChainReferenceID/CompassAddr/Assignee/AssignedAtBlockHeight, message id and turnstone id for CompassHandover, gas estimate for SubmitLogicCall/UploadUserSmartContract, batch PalomaBlockCreated/ChainReferenceID/Assignee and transfer id/sender/bridge tax",
 		"replace (PutOptions.MsgIDToReplace) keeps the id of the replaced message by design: it must return exactly that id, allocate nothing, and fail for an id that is not live in that very queue",
 		"BatchQueue (separate counter consensus-batch-queue-counter-) is instantiated by no module registered on this tree (no caller of WithBatch); only the plain Queue is explored",
@@ -370,6 +371,22 @@ func listField(name string, ss [][]int, showElem func(int) string) field {
 	}}
 }
 
+// mustDistinctPadded: the alphabet must be pairwise distinct at the level of
+// the delivered value (left-padded to bytes32 exactly as eth_txable.go does).
+func mustDistinctPadded(vals [][]byte) {
+	seen := map[[32]byte]int{}
+	for i, v := range vals {
+		if len(v) > 32 {
+			panic("harness: fee payer longer than 32 bytes")
+		}
+		padded := [32]byte(append(rep(0, 32-len(v)), v...))
+		if j, dup := seen[padded]; dup {
+			panic(fmt.Sprintf("harness: fee payer values %d and %d are the same bytes32", j, i))
+		}
+		seen[padded] = i
+	}
+}
+
 func be64(u uint64) []byte {
 	b := make([]byte, 8)
 	for i := 7; i >= 0; i-- {
@@ -429,9 +446,20 @@ func actions(cdc codec.Codec, thorough bool) []action {
 		[][]byte{{}, {0xa9, 0x05, 0x9c, 0xbb}, word1},
 		append(append([]byte{}, word1...), word1...), rep(0, 31), rep(0, 33))
 	fees := pick(thorough, []uint64{1, 100_000, math.MaxUint64}, 2)
+	// Fee payer = SenderAddress, raw account bytes (20-byte key accounts, 32-byte
+	// contract / module-derived accounts) that both the hashers and
+	// VerifyAgainstTX left-pad with zeroes to bytes32; the contract is handed all
+	// 32 bytes. P32 ends in the 20-byte payer p20 (differs from the padded p20 in
+	// its first 12 bytes only); P32last / P32first differ from P32 only in the
+	// last / first 12 bytes.
+	p20 := rep(0x11, 20)
+	p32 := append(rep(0xaa, 12), p20...)
+	p32last := append(append(rep(0xaa, 12), rep(0x11, 8)...), rep(0xbb, 12)...)
+	p32first := append(rep(0xcc, 12), p20...)
 	payers := pick(thorough,
-		[][]byte{rep(0x11, 20), append(rep(0x11, 19), 0x12), rep(0x22, 32)},
-		[]byte{})
+		[][]byte{p20, append(rep(0x11, 19), 0x12), p32, p32last, p32first},
+		[]byte{}, append(append([]byte{}, p32[:31]...), 0x10))
+	mustDistinctPadded(payers)
 	ids := pick(thorough, []uint64{1, 256, 1 << 63}, math.MaxUint64)
 	deadlines := pick(thorough, []int64{1, 1_700_000_600, math.MaxInt64}, 0)
 	turnstones := pick(thorough,
